@@ -553,6 +553,12 @@ func corpus() []Input {
 		{Svc: "ftp", Proto: "tcp", N: 3, Kind: "corpus", Conn: Conn{End: "close", Dial: "knock", Segs: with("PASV\r\n", "PORT 1,2\r\n")}},
 		{Svc: "ftp", Proto: "tcp", N: 2, Kind: "corpus", Slow: true, Conn: Conn{End: "close", Segs: with("PASV\r\n", "PORT x\r\n")}},
 		{Svc: "adb", Proto: "tcp", N: 10, Kind: "corpus", Conn: Conn{End: "close", Segs: str(cnxn, "OPEN")}},
+		// input that fills the 4096-byte bufio buffer without completing a line
+		{Svc: "dummy", Proto: "tcp", N: 2, Kind: "corpus", Conn: Conn{End: "close", Segs: str(strings.Repeat("a", 4096))}},
+		{Svc: "dummy", Proto: "tcp", N: 1, Kind: "corpus", Conn: Conn{End: "silent", Segs: str(strings.Repeat("a", 4095), "bb", strings.Repeat("c", 8192)+"\n")}},
+		{Svc: "memcached", Proto: "tcp", N: 1, Kind: "corpus", Conn: Conn{End: "close", Segs: str(strings.Repeat("a", 4097))}},
+		{Svc: "ftp", Proto: "tcp", N: 2, Kind: "corpus", Conn: Conn{End: "silent", Segs: str("USER "+strings.Repeat("a", 4091), "b", "\r\nNOOP\r\n")}},
+		{Svc: "smtp", Proto: "tcp", N: 2, Kind: "corpus", Conn: Conn{End: "close", Segs: str("HELO x\r\n", "NOOP "+strings.Repeat("a", 4090)+"\r", "\nNOOP\r\n"+strings.Repeat("b", 9000))}},
 		// peers that stop reading
 		{Svc: "echo", Proto: "tcp", N: 2, Kind: "corpus", Conn: Conn{End: "silent", Room: room(0), Segs: str("hello", "world")}},
 		{Svc: "echo", Proto: "tcp", N: 1, Kind: "corpus", Conn: Conn{End: "silent", Room: room(7), Segs: str("hello", "world")}},
@@ -693,10 +699,13 @@ func main() {
 		if o.Tier == "thorough" {
 			ns = []int{1, 10, 50, 200}
 		}
-		for _, sv := range []string{"vnc", "ssh-simulator", "ipp"} {
+		for _, sv := range []string{"vnc", "ssh-simulator", "ipp", "telnet"} {
 			nsc := 5
 			if sv == "ssh-simulator" {
 				nsc = 3
+			}
+			if sv == "telnet" {
+				nsc = 6
 			}
 			if sv == "vnc" {
 				nsc = 8
@@ -749,6 +758,9 @@ func main() {
 			for _, pls := range [][]hx.B{prefixes(sstr("LANG", "C")), prefixes(sstr("", "ls -la")), stray} {
 				ins = append(ins, Input{Svc: "ssh-simulator", Proto: "tcp", N: 1, Kind: "sweep", Sweep: &SweepIn{Svc: "ssh-simulator", Scenario: 3, N: 1, Req: req, Payloads: pls}})
 			}
+		}
+		for _, silent := range []bool{false, true} {
+			ins = append(ins, Input{Svc: "ssh-simulator", Proto: "tcp", N: 2, Kind: "sweep", Sweep: &SweepIn{Svc: "ssh-simulator", Scenario: 4, Silent: silent, N: 2}})
 		}
 		for _, rp := range []struct {
 			req string
